@@ -175,6 +175,9 @@ def run_tlc(module, cfg, *, extra=None, mode="check", workers=None, timeout=600,
     m2 = re.search(r"Error: Action property (\S+) is violated", res.stdout)
     if m2:
         res.violated = m2.group(1)
+    m3 = re.search(r"Temporal property (\S+) was violated", res.stdout)
+    if m3:
+        res.violated = res.violated or m3.group(1)
     if "Temporal properties were violated" in res.stdout:
         res.violated = res.violated or "temporal"
     if "Error: Deadlock reached" in res.stdout:
